@@ -35,6 +35,9 @@ type C20Case struct {
 	// BadAddr: the address argument given to Listen when the model selects an inherited socket (it must be
 	// ignored, whatever it is). "" = a valid fallback address is passed.
 	BadAddr string `json:"bad_addr,omitempty"`
+	// StderrSock: the child's descriptor 2 is a listening socket too (a service whose stderr is a socket, as under a
+	// journal): only descriptors from 3 on are ever candidates
+	StderrSock bool `json:"stderr_sock,omitempty"`
 }
 
 const envUnset = "\x00unset"
@@ -219,6 +222,22 @@ func execC20(c C20Case, bound time.Duration) (string, error) {
 	cmd.ExtraFiles = files
 	var stderr bytes.Buffer
 	cmd.Stderr = &stderr
+	var stderrEp *c20Endpoint
+	if c.StderrSock {
+		name := fmt.Sprintf("@verif-c20-%s-stderr", id)
+		l, lerr := net.Listen("unix", name)
+		if lerr != nil {
+			return "", fmt.Errorf("HARNESS: %v", lerr)
+		}
+		defer l.Close()
+		f, ferr := l.(*net.UnixListener).File()
+		if ferr != nil {
+			return "", fmt.Errorf("HARNESS: %v", ferr)
+		}
+		defer f.Close()
+		cmd.Stderr = f
+		stderrEp = &c20Endpoint{network: "unix", addr: name}
+	}
 	stdin, err := cmd.StdinPipe()
 	if err != nil {
 		return "", fmt.Errorf("HARNESS: %v", err)
@@ -244,6 +263,10 @@ func execC20(c C20Case, bound time.Duration) (string, error) {
 	}
 	all := append(append([]c20Endpoint(nil), eps...), fallback)
 	names := []string{"inherited descriptor 3", "inherited descriptor 4", "inherited descriptor 5", "the fallback address"}
+	if stderrEp != nil {
+		all = append(all, *stderrEp)
+		names = append(names, "descriptor 2 (the child's stderr, a listening socket)")
+	}
 	predicted := 3
 	if want >= 0 {
 		predicted = want
@@ -256,7 +279,7 @@ func execC20(c C20Case, bound time.Duration) (string, error) {
 		verdict = "activated"
 	}
 	// find who answers; the predicted endpoint is polled first and generously, which also proves the child is up
-	answers := make([]bool, 4)
+	answers := make([]bool, len(all))
 	if want == -2 {
 		verdict = "dont-care"
 		dl := time.Now().Add(bound)
@@ -475,6 +498,14 @@ func TestC20Product(t *testing.T) {
 			}
 		}
 	}
+	// the child's stderr is a listening socket as well: descriptor 2 is never a candidate, whatever the names say
+	for i := 0; i < n0; i++ {
+		c := cases[i]
+		if c.PID == "own" && (c.FDS == "2" || c.FDS == "3" || c.FDS == "1") && c.Kind == "unix" {
+			c.StderrSock, c.Origin = true, "product+stderr-socket"
+			cases = append(cases, c)
+		}
+	}
 	shard, nshards := Shard()
 	var mine []C20Case
 	for i, c := range cases {
@@ -493,6 +524,7 @@ func genC20(t *rapid.T) C20Case {
 	if n < 1 || n > 3 {
 		n = rapid.IntRange(1, 3).Draw(t, "n")
 	}
+	c.StderrSock = rapid.IntRange(0, 5).Draw(t, "stderrsock") == 0
 	if rapid.IntRange(0, 4).Draw(t, "namesunset") == 0 {
 		c.Names = envUnset
 		return c
